@@ -2,6 +2,30 @@
 
 package system
 
+import "reflect"
+
 // VerifDropBackground forgets the registered background coroutines: instances that are
 // running go on, no new one is started (scripted schedules start every sweep themselves).
 func (s *System) VerifDropBackground() { s.background = nil }
+
+// VerifBg is what can be seen of one registered background coroutine.
+type VerifBg struct {
+	Name    string
+	Last    int64   // the instant of its last start (0: never)
+	Running bool    // an instance is started and not finished
+	Inst    uintptr // identity of that instance (0: none yet)
+}
+
+// VerifBackground reports the registered background coroutines in registration order.
+func (s *System) VerifBackground() []VerifBg {
+	out := []VerifBg{}
+	for _, bg := range s.background {
+		b := VerifBg{Name: bg.name, Last: bg.last}
+		if bg.promise != nil {
+			b.Running = !bg.promise.Completed()
+			b.Inst = reflect.ValueOf(bg.promise).Pointer()
+		}
+		out = append(out, b)
+	}
+	return out
+}
